@@ -118,10 +118,20 @@ Definition p_said (c : libcase) (said : list (string * string)) : bool :=
                      | _, None => false
                      end) (lc_notes c).
 
-Definition run_C01o (cs : libcase * list (string * string)) : verdict :=
-  let v := run_C01 (fst cs) in
-  (* no known class speaks about the reader: a failure of sub-property 3 is never excused *)
-  if p_said (fst cs) (snd cs) then v
-  else V (v_corr v) (v_prop v ++ [3%N]) [] (v_nontriv v).
-Definition run_C06 (c : libcase) : verdict := with_rr c (Check_Norm.run_C06 c).
-Definition run_C07 (c : libcase) : verdict := with_rr c (Check_Norm.run_C07 c).
+(* sub-property 4: what formatting a note gives does not change when the OTHER notes of the library
+   are re-submitted with the texts they already have (update_key of each: what saving an unchanged
+   buffer does) - "keeps everything the note says" also in a library that is being worked on.
+   [settled]: per note, the two texts (None: a step panicked, which is C03's / C04's to report). *)
+Definition p_settled (settled : list (string * option (string * string))) : bool :=
+  forallb (fun e => match snd e with Some (a, b) => String.eqb a b | None => true end) settled.
+
+Definition run_C01o (cs : libcase * list (string * string) * list (string * option (string * string))) : verdict :=
+  let '(lc, said, settled) := cs in
+  let v := run_C01 lc in
+  (* no known class speaks about the reader or about re-submitting unchanged notes: failures of
+     sub-properties 3 and 4 are never excused *)
+  let extra := (if p_said lc said then [] else [3%N]) ++ (if p_settled settled then [] else [4%N]) in
+  match extra with
+  | [] => v
+  | _ => V (v_corr v) (v_prop v ++ extra) [] (v_nontriv v)
+  end.
